@@ -148,12 +148,12 @@ def _for_over(I, s, st, itv, ctx):
         d = st.heap[itv.data["self"].oid]
         vals = d.vals
         return _for_symbolic(I, s, st, "seq", d.keys, ctx,
-                             elem_val=lambda x: TupV([Sym(x), Sym(z3.Select(vals, x))]))
+                             elem_val=lambda x: TupV([Sym(x), Sym(z3.Select(vals, x))]), distinct=True)
     if isinstance(itv, FuncV) and itv.kind == "builtin" and itv.data.get("name") == "$dictvalues":
         # iteration over d.values(): one step per key, the element is the value stored under it
         d = st.heap[itv.data["self"].oid]
         vals = d.vals
-        return _for_symbolic(I, s, st, "seq", d.keys, ctx, elem_val=lambda x: Sym(z3.Select(vals, x)))
+        return _for_symbolic(I, s, st, "seq", d.keys, ctx, elem_val=lambda x: Sym(z3.Select(vals, x)), distinct=True)
     items = iter_items(I, st, itv)
     if items is not None:
         live, brk, esc = [st], [], []
@@ -260,7 +260,7 @@ def havoc_vars(I, st, names):
         st.env[n] = Sym(I.U.fresh(n))
 
 
-def _for_symbolic(I, s, st, skind, seq, ctx, elem_val=None, spec_iter_text=None, n_total=None):
+def _for_symbolic(I, s, st, skind, seq, ctx, elem_val=None, spec_iter_text=None, n_total=None, distinct=False):
     """Inductive rule over a symbolic sequence (heap list: Seq split `xs = pre ++ [x] ++ post`;
     tuple/list value: arbitrary index `0 <= i < len`, `x = item(i)`)."""
     from .spec import Prefix
@@ -301,6 +301,9 @@ def _for_symbolic(I, s, st, skind, seq, ctx, elem_val=None, spec_iter_text=None,
     if skind == "seq":
         pre, post = U.fresh_seq("pre"), U.fresh_seq("post")
         it.pc.append(seq == z3.Concat(pre, z3.Unit(x), post))
+        if distinct:
+            # the keys of a dict are pairwise different: the current key occurs nowhere else
+            it.pc += [z3.Not(z3.Contains(pre, z3.Unit(x))), z3.Not(z3.Contains(post, z3.Unit(x)))]
         for f in folds:
             if f.indexed:
                 continue
